@@ -1,10 +1,13 @@
 package checks
 
 import (
+	"bytes"
+	"context"
 	"encoding/json"
 	"fmt"
 	"math/rand"
 	"os"
+	osexec "os/exec"
 	"path/filepath"
 	"strings"
 	"sync"
@@ -109,7 +112,7 @@ func faultOne(b *model.Behaviour, pal *palette.Palette, palName string, palSeed 
 				viols = append(viols, mk(o.Step, o.Name, j, fmt.Sprintf("a failed storage call (%s) is passed off as a result: fault-free %q, with the fault %q", refKinds[j], truncate(o.Outcome, 200), truncate(got.Outcome, 200))))
 				continue
 			}
-			if o.Writer {
+			if o.Writer && !noDurable {
 				ev.Durable = fault.Durable(faultdb.Dump(r.Mem), b, o.Step, pal, false, nil)
 				okD := ev.Durable == "pre=post" || ev.Durable == "post" || (ev.Ret == "error" && ev.Durable == "pre")
 				if !okD {
@@ -175,11 +178,11 @@ func RunC17(id, tier string, seed int64) int {
 	transitions += gen
 	rng := rand.New(rand.NewSource(seed))
 	type job struct {
-		b        *model.Behaviour
-		pal      *palette.Palette
-		palName  string
-		palSeed  int64
-		cache    int
+		b       *model.Behaviour
+		pal     *palette.Palette
+		palName string
+		palSeed int64
+		cache   int
 	}
 	jobs := make([]job, len(behs))
 	for i, b := range behs {
@@ -257,6 +260,27 @@ func RunC17(id, tier string, seed int64) int {
 			}
 		}
 	}
+	// the same behaviours at a flush threshold that makes the batch flush inside operations (child processes)
+	sv, spos, sdied, err := smallFlushPass(id, seed, behs, sim.K)
+	if err != nil {
+		return fail(2, "INCONCLUSIVE: "+err.Error())
+	}
+	positions += spos
+	for _, v := range sv {
+		v.Property = id
+		if f, ok := known[classifyFault(&v)]; ok && f.Status == "known" {
+			continue
+		}
+		_ = os.MkdirAll(replayDir, 0o755)
+		path := filepath.Join(replayDir, fmt.Sprintf("%s-%d-%d.json", id, seed, len(violations)))
+		bts, _ := json.MarshalIndent(v, "", " ")
+		_ = os.WriteFile(path, bts, 0o644)
+		violations = append(violations, fmt.Sprintf("VIOLATION property=%s replay=%s", id, path))
+		if len(violations) <= 8 {
+			fmt.Printf("  [flush threshold 150] step %d %s, failing storage call #%d (%s): %s\n", v.Step, v.Op, v.FailAt, v.CallKind, truncate(v.Msg, 300))
+		}
+	}
+	ev.Coverage["small_flush_threshold_pass"] = fmt.Sprintf("%d fault positions in child processes, %d processes died", spos, sdied)
 	// regression witnesses of repaired defects
 	wfiles, _ := filepath.Glob(filepath.Join(VerifDir, "findings", id+"-*.json"))
 	witnesses := 0
@@ -266,7 +290,7 @@ func RunC17(id, tier string, seed int64) int {
 			continue
 		}
 		var w faultViolation
-		if json.Unmarshal(bts, &w) != nil || w.Kind != "fault" {
+		if json.Unmarshal(bts, &w) != nil || (w.Kind != "fault" && w.Kind != "fault-child") {
 			continue
 		}
 		wb, err := model.ParseBehaviour(string(w.Behaviour))
@@ -274,6 +298,15 @@ func RunC17(id, tier string, seed int64) int {
 			return fail(2, "INCONCLUSIVE: witness "+wf+": "+err.Error())
 		}
 		witnesses++
+		if w.Kind == "fault-child" {
+			if cv, cp, _ := childWitness(wb, &w); len(cv) > 0 {
+				fmt.Printf("  regression witness %s fails again: %s\n", filepath.Base(wf), truncate(cv[0].Msg, 200))
+				violations = append(violations, fmt.Sprintf("VIOLATION property=%s replay=%s", id, wf))
+			} else {
+				positions += cp
+			}
+			continue
+		}
 		_, wv, wp, _ := faultOne(wb, palette.New(w.Palette, w.K, w.PalSeed), w.Palette, w.PalSeed, w.K, w.Cache, w.Flush)
 		positions += wp
 		for _, x := range wv {
@@ -338,6 +371,133 @@ func RunC17(id, tier string, seed int64) int {
 	return 0
 }
 
+// FaultChild is the entry point of the child process used for the small-flush-threshold pass: a failing
+// auto-flush can kill the whole process (a Go runtime fatal error cannot be recovered), so that pass
+// runs outside the checking process. It prints one JSON line with the violations it saw.
+func FaultChild(jobFile string) int {
+	bts, err := os.ReadFile(jobFile)
+	if err != nil {
+		fmt.Println(err)
+		return 2
+	}
+	var j struct {
+		Behaviour json.RawMessage `json:"behaviour"`
+		Palette   string          `json:"palette"`
+		PalSeed   int64           `json:"palseed"`
+		K, Flush  int
+	}
+	if err := json.Unmarshal(bts, &j); err != nil {
+		fmt.Println(err)
+		return 2
+	}
+	b, err := model.ParseBehaviour(string(j.Behaviour))
+	if err != nil {
+		fmt.Println(err)
+		return 2
+	}
+	noDurable = true
+	_, viols, pos, _ := faultOne(b, palette.New(j.Palette, j.K, j.PalSeed), j.Palette, j.PalSeed, j.K, 0, j.Flush)
+	out, _ := json.Marshal(map[string]interface{}{"viols": viols, "positions": pos})
+	fmt.Println("CHILDRESULT " + string(out))
+	return 0
+}
+
+// noDurable: the small-threshold pass judges answers and process survival only; the durable state of
+// an operation that was cut by an auto-flush is the subject of C05 (incl. its listed findings)
+var noDurable bool
+
+// childWitness replays one recorded small-threshold job.
+func childWitness(b *model.Behaviour, w *faultViolation) ([]faultViolation, int, bool) {
+	exe, err := os.Executable()
+	if err != nil {
+		return []faultViolation{{Step: -1, Msg: err.Error()}}, 0, true
+	}
+	dir, err := os.MkdirTemp("", "vfault")
+	if err != nil {
+		return []faultViolation{{Step: -1, Msg: err.Error()}}, 0, true
+	}
+	defer os.RemoveAll(dir)
+	return childRun(exe, filepath.Join(dir, "job.json"), b, w.Palette, w.PalSeed, w.K)
+}
+
+// childRun executes one small-threshold job in a child process.
+func childRun(exe, jf string, b *model.Behaviour, name string, ps int64, k int) ([]faultViolation, int, bool) {
+	jb, _ := json.Marshal(map[string]interface{}{"behaviour": json.RawMessage(b.Raw), "palette": name, "palseed": ps, "K": k, "Flush": 150})
+	if err := os.WriteFile(jf, jb, 0o644); err != nil {
+		return []faultViolation{{Step: -1, Msg: err.Error(), Kind: "fault-child"}}, 0, true
+	}
+	ctx, cancel := context.WithTimeout(context.Background(), 10*time.Minute)
+	defer cancel()
+	cmd := osexec.CommandContext(ctx, exe, "C17-child", jf)
+	var so, se bytes.Buffer
+	cmd.Stdout, cmd.Stderr = &so, &se
+	runErr := cmd.Run()
+	for _, line := range strings.Split(so.String(), "\n") {
+		if strings.HasPrefix(line, "CHILDRESULT ") {
+			var r struct {
+				Viols     []faultViolation `json:"viols"`
+				Positions int              `json:"positions"`
+			}
+			if json.Unmarshal([]byte(line[len("CHILDRESULT "):]), &r) == nil {
+				return r.Viols, r.Positions, false
+			}
+		}
+	}
+	msg := firstLine(strings.TrimSpace(se.String()))
+	for _, l := range strings.Split(se.String(), "\n") {
+		if strings.HasPrefix(l, "fatal error:") || strings.HasPrefix(l, "panic:") {
+			msg = l
+			break
+		}
+	}
+	return []faultViolation{{Behaviour: json.RawMessage(b.Raw), Summary: b.Summary(), Palette: name, PalSeed: ps, K: k, Flush: 150, Step: -1, Op: "?", FailAt: -1,
+		Msg: fmt.Sprintf("with one storage call failing at flush threshold 150 the whole process died (%v): %s", runErr, msg), Kind: "fault-child"}}, 0, true
+}
+
+// smallFlushPass runs every behaviour once more at flush threshold 150 in child processes.
+func smallFlushPass(id string, seed int64, behs []*model.Behaviour, k int) (viols []faultViolation, positions int, died int, err error) {
+	exe, err := os.Executable()
+	if err != nil {
+		return nil, 0, 0, err
+	}
+	dir, err := os.MkdirTemp("", "vfault")
+	if err != nil {
+		return nil, 0, 0, err
+	}
+	defer os.RemoveAll(dir)
+	rng := rand.New(rand.NewSource(seed + 5))
+	type res struct {
+		viols []faultViolation
+		pos   int
+		died  bool
+	}
+	out := make([]res, len(behs))
+	var wg sync.WaitGroup
+	sem := make(chan struct{}, 12)
+	for i, b := range behs {
+		name := palette.Names[rng.Intn(len(palette.Names))]
+		ps := rng.Int63()
+		jf := filepath.Join(dir, fmt.Sprintf("job%d.json", i))
+		wg.Add(1)
+		sem <- struct{}{}
+		go func(i int, b *model.Behaviour, jf, name string, ps int64) {
+			defer wg.Done()
+			defer func() { <-sem }()
+			v, p, d := childRun(exe, jf, b, name, ps, k)
+			out[i] = res{v, p, d}
+		}(i, b, jf, name, ps)
+	}
+	wg.Wait()
+	for _, r := range out {
+		viols = append(viols, r.viols...)
+		positions += r.pos
+		if r.died {
+			died++
+		}
+	}
+	return
+}
+
 // classifyFault maps a fault violation to a listed finding id ("" = none).
 func classifyFault(v *faultViolation) string {
 	return ""
@@ -350,13 +510,25 @@ func ReplayFault(path string) (bool, int) {
 		return false, 2
 	}
 	var v faultViolation
-	if json.Unmarshal(bts, &v) != nil || v.Kind != "fault" {
+	if json.Unmarshal(bts, &v) != nil || (v.Kind != "fault" && v.Kind != "fault-child") {
 		return false, 0
 	}
 	b, err := model.ParseBehaviour(string(v.Behaviour))
 	if err != nil {
 		fmt.Println("INCONCLUSIVE:", err)
 		return true, 2
+	}
+	if v.Kind == "fault-child" {
+		cv, _, _ := childWitness(b, &v)
+		for _, x := range cv {
+			if v.Step < 0 || (x.Step == v.Step && x.Op == v.Op && x.FailAt == v.FailAt) {
+				fmt.Println(x.Msg)
+				fmt.Printf("VIOLATION property=%s replay=%s\n", v.Property, path)
+				return true, 1
+			}
+		}
+		fmt.Println("replay passes on the current tree")
+		return true, 0
 	}
 	pal := palette.New(v.Palette, v.K, v.PalSeed)
 	_, viols, _, _ := faultOne(b, pal, v.Palette, v.PalSeed, v.K, v.Cache, v.Flush)
